@@ -119,7 +119,7 @@ func init() {
 		reflect.Array:         getArrayPtrDecoder,
 		reflect.Chan:          invalidDecoder,
 		reflect.Func:          invalidDecoder,
-		reflect.Interface:     func(t reflect.Type) ValueDecoder { return interfacePtrDecoder{} },
+		reflect.Interface:     getInterfacePtrDecoder,
 		reflect.Map:           getMapPtrDecoder,
 		reflect.Ptr:           getPtrPtrDecoder,
 		reflect.Slice:         getSlicePtrDecoder,
